@@ -13,6 +13,10 @@ import (
 type Ref struct {
 	Mod  string `json:"mod,omitempty"`
 	Name string `json:"name"`
+	// Scope, for a grouping defined inside a data node, is the (scenario-wide
+	// unique) name of that node: several sibling scopes may define groupings
+	// of the same name.
+	Scope string `json:"scope,omitempty"`
 }
 
 // Scenario is a set of module and submodule texts in abstract form.
